@@ -2,10 +2,10 @@ package props
 
 import (
 	"encoding/hex"
-	"go/token"
 	"fmt"
 	"go/ast"
 	"go/constant"
+	"go/token"
 	"go/types"
 	"math/big"
 	"sort"
